@@ -42,7 +42,7 @@ PLAN = {
               "per-oracle cursor. TestC01Reenter: parked inbound bridge calls whose target contract re-enters crosschain.executeClaim (for itself directly / twice / through a second contract, or for another parked claim; caught or propagated; returning or reverting): each claim credits at most its amount. non-trivial = >= 2 variants of one nonce received votes and some nonce was observed, or stake/membership changed while an attestation was open; distinct = distinct (oracle count, plan, op-kind/argument-class sequence)"),
         assumptions=["claims enter through the MsgClaim handler with the unpacked claim (on this snapshot MsgClaim fails ValidateBasic after wire decoding, see DESIGN.md)", "pruning beyond 100 nonces is not reached in the quick tier"],
         quick=[dict(test="TestC01", cases=8000, shards=16, timeout=900), dict(test="TestC01Reenter", cases=400, shards=4, timeout=900)],
-        thorough=[dict(test="TestC01", cases=48000, shards=14, timeout=3400, shrink=120), dict(test="TestC01Reenter", cases=8000, shards=2, timeout=3400)],
+        thorough=[dict(test="TestC01", cases=400000, shards=14, timeout=3400, shrink=120), dict(test="TestC01Reenter", cases=8000, shards=2, timeout=3400)],
     ),
     "C02": dict(
         level="exploration",
@@ -51,7 +51,7 @@ PLAN = {
               "accepted vote => online registered oracle. non-trivial = an event observed with >= 2 voters of unequal stake, or a stake/membership change while an attestation was open"),
         assumptions=["claims enter through the MsgClaim handler with the unpacked claim; the block-level signer clause is checked by TestC02Signer"],
         quick=[dict(test="TestC02", cases=8000, shards=16, timeout=900), dict(test="TestC02Signer", cases=96, shards=8, timeout=900)],
-        thorough=[dict(test="TestC02", cases=48000, shards=14, timeout=3400, shrink=120), dict(test="TestC02Signer", cases=2000, shards=2, timeout=3400)],
+        thorough=[dict(test="TestC02", cases=400000, shards=14, timeout=3400, shrink=120), dict(test="TestC02Signer", cases=2000, shards=2, timeout=3400)],
     ),
     "C12": dict(
         level="exploration",
